@@ -38,7 +38,7 @@ TEXT = {
         "technique": "Rocq theorems over a Gallina model + differential correspondence + property oracle",
     },
     "C14": {
-        "text": "Theorems quantified over every message state (hence every point of every operation sequence): the bits of the packed bitmap (auto-expanding or fixed), continuation bits aside, are exactly the ids GetFields reports; JSON is built from the same set and succeeds iff Pack does; Pack/JSON do not change values or the set; the set per operation: a setter adds exactly its id, Marshal of a struct adds exactly the ids of its non-zero indexed fields, UnsetField removes exactly its id and resets the whole nested state, UnsetSubfields by path (any depth) leaves nothing populated at the path, an as-new object there and every other path as it was, a successful Unpack of any bytes leaves the MTI, the bitmap and exactly the announced elements, UnmarshalJSON adds exactly the keys of the accepted document (messages, and composites at any depth), what Unmarshal copies out is a function of the populated set and the content of the populated elements; over histories: after any operation sequence every data element outside the populated set is exactly as in a new message, so nothing can come back. The model of all operations is compared with the library after every step of random and exhaustive short histories; the oracle keeps a reference set (written since creation or the last Unpack, minus unset) and checks - in a quiet replay that performs only the history's operations - that nothing that was unset, replaced by an Unpack, or decoded by a failed Unpack ever comes back (this found and led to the repair of F28 and F30).",
+        "text": "Theorems quantified over every message state (hence every point of every operation sequence): the bits of the packed bitmap (auto-expanding or fixed), continuation bits aside, are exactly the ids GetFields reports; JSON is built from the same set and succeeds iff Pack does; Pack/JSON do not change values or the set; the set per operation: a setter adds exactly its id, Marshal of a struct adds exactly the ids of its non-zero indexed fields, UnsetField removes exactly its id and resets the whole nested state, UnsetSubfields by path (any depth) leaves nothing populated at the path, an as-new object there and every other path as it was, a successful Unpack of any bytes leaves the MTI, the bitmap and exactly the announced elements, UnmarshalJSON adds exactly the keys of the accepted document (messages, and composites at any depth), what Unmarshal copies out is a function of the populated set and the content of the populated elements; over histories: after any operation sequence every data element outside the populated set is exactly as in a new message, so nothing can come back. The model of all operations is compared with the library after every step of random and exhaustive short histories; the oracle keeps a reference set (written since creation or the last Unpack, minus unset) and checks - in a quiet replay that performs only the history's operations - that nothing that was unset, replaced by an Unpack, or decoded by a failed Unpack ever comes back (this found and led to the repair of F28 and F30); a separate check marshals structs that fail at their second subfield and shows that nothing of the failed write comes back when the element is populated again (the repair of F32).",
         "design_ref": "DESIGN.md section 6 C14",
         "note": 'Trusted: Coq kernel, hand-written model (Model/Message.v, Model/Json.v, Model/MessageOps.v) validated by correspondence on every run, extraction/driver, Go harness and property oracle.',
         "technique": "Rocq theorems over a Gallina model + differential correspondence + property oracle",
@@ -86,7 +86,7 @@ TEXT = {
         "technique": "Rocq theorems over a Gallina model + differential correspondence + property oracle",
     },
     "C10": {
-        "text": "Proved for primitive fields, for every composite field (any nesting, all modes) and for whole messages: the outcome of Unpack does not depend on what the object held, and after a successful Unpack neither does the complete state of the object (hence values, nested subfields, re-packed bytes, JSON), for objects in a clean state (every subfield / element that is not set is as new; the element at which the last Unpack failed excepted). Clean is proved to hold for new objects and to be kept by Unpack (whatever its outcome), UnsetField, the setters by id, Message.Marshal of any struct (whatever its outcome), every accepted UnmarshalJSON and UnsetFields by path; failing JSON documents (state depends on Go's map order) are not claimed. Over histories: after any sequence of the state-changing operations of the message API (setters, unset by id and path, Unpack / Marshal whatever their outcome, accepted JSON, Pack, MarshalJSON, Bitmap, Clone) Unpack of any bytes behaves as on a new message. Track fields: the outcome of Unpack does not depend on what the object held, and after an accepted Unpack neither do its components (FixedLength, which Unpack never touches, aside). This rests on the repairs F12, F13, F27, F28, F29, F30, all found by the checks.",
+        "text": "Proved for primitive fields, for every composite field (any nesting, all modes) and for whole messages: the outcome of Unpack does not depend on what the object held, and after a successful Unpack neither does the complete state of the object (hence values, nested subfields, re-packed bytes, JSON), for objects in a clean state (every subfield / element that is not set is as new; the element at which the last Unpack failed excepted). Clean is proved to hold for new objects and to be kept by Unpack (whatever its outcome), UnsetField, the setters by id, Message.Marshal of any struct (whatever its outcome), every accepted UnmarshalJSON and UnsetFields by path; failing JSON documents (state depends on Go's map order) are not claimed. Over histories: after any sequence of the state-changing operations of the message API (setters, unset by id and path, Unpack / Marshal whatever their outcome, accepted JSON, Pack, MarshalJSON, Bitmap, Clone) Unpack of any bytes behaves as on a new message. Track fields: the outcome of Unpack does not depend on what the object held, and after an accepted Unpack neither do its components (FixedLength, which Unpack never touches, aside). Composite objects used on their own: after any history of the composite API Unpack behaves as on a new composite. This rests on the repairs F12, F13, F27, F28, F29, F30, F32, all found by the checks (F32 while proving the composite histories: a write that failed part way left subfields in a field that was not set).",
         "design_ref": "DESIGN.md section 6 C10",
         "note": 'Trusted: Coq kernel, hand-written model (Model/Field.v, Model/Message.v) validated by correspondence on every run, extraction/driver, Go harness incl. the spec/value generators and the property oracle.',
         "technique": "Rocq theorems over a Gallina model + differential correspondence + property oracle",
